@@ -390,6 +390,8 @@ def run(ck, prog, tier, load):
         for bb, t in qb.calls(r"Quality::from_f32$"):
             def positive(c, lab):
                 bt = bool_test(c, lab)
+                if bt and bt[1] is False and bt[0][0] == "call" and rx(r"f32::is_nan$|::is_nan$").search(bt[0][1] or ""):
+                    return True  # NaN excluded explicitly: the negated range tests that follow are then sound
                 if not bt or bt[1] is not True:
                     return False
                 e = bt[0]
